@@ -61,13 +61,17 @@ def build_jobs(tier):
     jobs = []
     for i in range(nshards):
         jobs.append({"id": i, "tables": {"l": table, "r": table}, "cases": cases[i::nshards]})
+    # the same join cases on key columns of DIFFERENT numeric types (INT keys on the left, BIGINT / SMALLINT on the right)
+    jcases = [dict(c, mixed=True) for c in cases if c["op"] == "join"]
+    for i in range(8):
+        jobs.append({"id": 100 + i, "tables": {"l": table, "r": table}, "key_types": {"r": ["bigint", "smallint"]}, "cases": jcases[i::8]})
     return jobs, groups
 
 
 def run(tier, seed):
     jobs, groups = build_jobs(tier)
     chk = core.Check("C11", tier, "exploration",
-                     "joins: all pairs of input contents (multisets of <= %d rows over a 6-row universe with NULL / duplicate keys, + 1030/2050/40-row inputs) x 6 join types x {1,2} key columns x residual; "
+                     "joins: all pairs of input contents (multisets of <= %d rows over a 6-row universe with NULL / duplicate keys, + 1030/2050/40-row inputs) x 6 join types x {1,2} key columns x residual, with INT keys on both sides and with INT vs BIGINT/SMALLINT keys; "
                      "nested-loop vs hash vs merge(sorted inputs); aggregation: hashagg vs sortagg vs agg over 3 key lists x 6 aggregate lists; limit(order) vs topn over 4 key lists x 8 limit/offset pairs; "
                      "a case = one plan shape on one input; oracle: all implementations return the same multiset (top-N: same key sequence); non-trivial = at least one implementation returned rows" % (2 if tier == "quick" else 3), seed)
     res = runner.run_many("ops", jobs, timeout=3600, progress=8)
